@@ -26,7 +26,11 @@ EXPLANATION = (
     "worlds order real numbers, the NaN world is outside the documented table and not decided); boolean locals bound in tuple assignments; stages "
     "of the assessment moved into new methods / read-only properties / static methods of the window-state class (expanded at their use on the state "
     "parameter); the assessment applied through a single functools.partial (arguments written out; a configured parameter that is not passed at "
-    "all is the literal default of the assessment's signature)."
+    "all is the literal default of the assessment's signature); the result returned as a typing.NamedTuple record of the repository (the tuple of its fields in declaration "
+    "order); in train_td7 a value carried through an expanded local helper (`t = v` ... `v = t` with v untouched in between: t is v), a counting loop whose "
+    "target is the counter it advances (`for v in range(v + 1, b)` is `v += 1` at the head of every iteration) and truth locals wrapped in bool().  When the order "
+    "worlds do not decide the assessment (a comparison with a product such as best * reset_weight), a small grid of concrete reachable entry states is evaluated exactly: "
+    "a state whose outcome differs from the documented table is a witness (violation), finding none leaves the form undecided."
 )
 TRUSTED = ["Python comparison semantics", "steps_per_episode >= 1 at an episode end (the window's step count is positive when steps are released)",
            "the epoch counter only grows (needed for `the switch happens once`, not decided)"]
@@ -212,6 +216,152 @@ def _with_object_methods_inlined(repo, fn, qual: str, default_types: dict | None
     return new
 
 
+def _record_as_tuple(repo, mi, e):
+    """`Record(a, field2=b)` where Record is a typing.NamedTuple class of the repository (a tuple with named positions, no constructor of its
+    own): the tuple of its fields in declaration order, arguments bound by position / field name, omitted fields at their declared defaults.
+    Anything else is returned as it is."""
+    if not (isinstance(e, ast.Call) and isinstance(e.func, (ast.Name, ast.Attribute))):
+        return e
+    try:
+        q = repo.resolve_expr(mi, e.func)
+        c = repo.cls(q) if q else None
+    except Exception:
+        return e
+    if not isinstance(c, ast.ClassDef) or len(c.bases) != 1 or c.keywords or c.decorator_list:
+        return e
+    try:
+        base = repo.resolve_expr(c._module, c.bases[0])
+    except Exception:
+        base = None
+    if base != "typing.NamedTuple":
+        return e
+    fields = [(s_.target.id, s_.value) for s_ in c.body if isinstance(s_, ast.AnnAssign) and isinstance(s_.target, ast.Name)]
+    if any(isinstance(s_, ast.FunctionDef) and s_.name in ("__new__", "__init__") for s_ in c.body) or not fields:
+        return e
+    if any(isinstance(a_, ast.Starred) for a_ in e.args) or any(k.arg is None for k in e.keywords) or len(e.args) > len(fields):
+        return e
+    vals = dict(zip([f_ for f_, _ in fields], e.args))
+    for k in e.keywords:
+        if k.arg in vals or k.arg not in dict(fields):
+            return e
+        vals[k.arg] = k.value
+    elts = []
+    for f_, d_ in fields:
+        v_ = vals.get(f_, d_)
+        if v_ is None:
+            return e
+        elts.append(v_)
+    return ast.copy_location(ast.Tuple(elts=elts, ctx=ast.Load()), e)
+
+
+class _NotNumeric(Exception):
+    pass
+
+
+def _concrete_counterexample(summaries, m1, old, env0, fields, roles):
+    """Search a small grid of concrete entry states (exact rationals; the entry invariants of the order model: min_return >= best_min_return,
+    episodes + 1 <= window size, episode steps >= 1) for one in which the outcome of the single enabled path differs from the documented table.
+    Returns {obligation key: (detail with the state as witness, why)} for the first such state, None when there is none on the grid or the
+    paths cannot be evaluated numerically (nothing is concluded then)."""
+    import itertools
+    from fractions import Fraction as Fr
+    E, T, M, MIN, BEST = fields
+    SPE, RET, EPOCH, RW, MEWC, SBC = roles
+    min_atom = m1.single_atom()
+
+    def nval(p_, mp):
+        q = p_.subst(mp)
+        if not q.is_const():
+            raise _NotNumeric()
+        return q.const_value()
+
+    def holds(f, mp):
+        k = f[0]
+        if k == "const":
+            return bool(f[1])
+        if k == "not":
+            return not holds(f[1], mp)
+        if k == "and":
+            return all(holds(g, mp) for g in f[1])
+        if k == "or":
+            return any(holds(g, mp) for g in f[1])
+        if k == "truth":
+            return nval(f[1], mp) != 0
+        if k == "cmp":
+            d_ = nval(f[2] - f[3], mp)
+            return d_ < 0 if f[1] == "lt" else d_ == 0
+        raise _NotNumeric()
+
+    # window states that a run reaches: a fresh window (no episode, no step, the sentinel as minimum) or one episode into a window of two
+    windows = ((0, 1, 0, Fr(10 ** 8)), (0, 2, 0, Fr(10 ** 8)), (1, 2, 3, Fr(4)), (1, 2, 3, Fr(10)))
+    grid = itertools.product((Fr(-3), Fr(3), Fr(5)), windows, (Fr(-2), Fr(4)), (Fr(1, 2), Fr(1), Fr(2)), (1, 2), (0, 10), (0, 2, 12, 50))
+    for ret, (e0, msz, t0, omin), best, w, spe, epoch, sbc in grid:
+        if omin < best:
+            continue
+        mewc = 7
+        mn = min(omin, ret)
+        mp = {next(iter(env0[RET].atoms())): Poly.const(ret), next(iter(old[MIN].atoms())): Poly.const(omin), next(iter(old[BEST].atoms())): Poly.const(best),
+              next(iter(env0[RW].atoms())): Poly.const(w), next(iter(old[E].atoms())): Poly.const(e0), next(iter(old[M].atoms())): Poly.const(msz),
+              next(iter(old[T].atoms())): Poly.const(t0), next(iter(env0[SPE].atoms())): Poly.const(spe), next(iter(env0[EPOCH].atoms())): Poly.const(epoch),
+              next(iter(env0[SBC].atoms())): Poly.const(sbc), next(iter(env0[MEWC].atoms())): Poly.const(mewc), min_atom: Poly.const(mn)}
+        try:
+            active = [sm for sm in summaries if all(holds(f, mp) for f in sm[1])]
+            if len(active) != 1:
+                continue
+            _p, _conds, (flag_f, steps), store = active[0]
+            got = {"R1-conservation:released": nval(steps, mp), "R2-reset-set:episodes": nval(store[E], mp), "R2-reset-set:timesteps": nval(store[T], mp),
+                   "R3-checkpoint-guard:best": nval(store[BEST], mp), "R4-window-switch:window-size": nval(store[M], mp), "R2-reset-set:min_return": nval(store[MIN], mp),
+                   "R3-checkpoint-guard:flag": holds(flag_f, mp)}
+        except (_NotNumeric, KeyError):
+            continue
+        e1, t1 = e0 + 1, t0 + spe
+        cut = mn < best
+        full = (not cut) and e1 == msz
+        release = cut or full
+        sw = release and epoch < sbc <= epoch + t1
+        want = {"R1-conservation:released": (t1 if release else 0, "the released training iterations must equal the environment steps collected in this window (old counter + this episode), 0 while the window continues"),
+                "R2-reset-set:episodes": (0 if release else e1, "the episode counter is reset exactly when steps are released, else advanced by one"),
+                "R2-reset-set:timesteps": (0 if release else t1, "the step counter is reset exactly when steps are released, else advanced by the episode's steps"),
+                "R3-checkpoint-guard:best": ((mn if full else best) * (w if sw else 1), "best_min_return changes only when a window completes (to the window's minimum return) and by the reset weight at the switch"),
+                "R4-window-switch:window-size": (mewc if sw else msz, "the window size changes exactly at the switch, to max_episodes_when_checkpointing"),
+                "R3-checkpoint-guard:flag": (full, "the checkpoint may be replaced exactly when a complete window finished with every return at least the best minimum so far")}
+        state = (f"episode_return={ret}, min_return={omin}, best_min_return={best}, reset_weight={w}, episodes={e0}, window size={msz}, timesteps={t0}, "
+                 f"steps_per_episode={spe}, epoch={epoch}, steps_before_checkpointing={sbc}")
+        kind = ("cut" if cut else "full" if full else "continue") + ("/switch" if sw else "")
+        out = {}
+        for key, (wv, why) in want.items():
+            if got[key] != wv:
+                out[key] = (f"{key.split(':')[1]} = {got[key]}, documented {wv} in the entry state [{state}] ({kind})", why)
+        gm = got["R2-reset-set:min_return"]
+        if (gm < 10 ** 6) if release else (gm != mn):
+            out["R2-reset-set:min_return"] = (f"min_return = {gm} in the entry state [{state}] ({kind})", "min_return must be min(old, episode_return) while the window continues and reset to its large initial value on release")
+        if out:
+            return out
+    return None
+
+
+def _records_as_tuples(repo, fn):
+    """Copy of ``fn`` in which every construction of a NamedTuple record of the repository is written as the plain tuple it is (see
+    _record_as_tuple); None when the routine constructs none."""
+    from ..expand import clone
+    mi = fn._module
+    if not any(isinstance(x, ast.Call) and _record_as_tuple(repo, mi, x) is not x for x in ast.walk(fn)):
+        return None
+
+    class T(ast.NodeTransformer):
+        def visit_Call(self, node):
+            self.generic_visit(node)
+            return _record_as_tuple(repo, mi, node)
+    new = clone(fn)
+    new._module = mi
+    new._parent = getattr(fn, "_parent", None)
+    new = T().visit(new)
+    for parent in ast.walk(new):
+        for child in ast.iter_child_nodes(parent):
+            child._parent = parent
+    return new
+
+
 def _assess_table(ck, repo, nf):
     fn = repo.func(AQ)
     mi = fn._module
@@ -219,6 +369,7 @@ def _assess_table(ck, repo, nf):
     ck.need(len(params) >= 7, f"{AQ}: signature changed (anchor vanished)")
     # stages that a later change moved into methods / properties of the window-state class are read at their calls on the state parameter
     fn = _with_object_methods_inlined(repo, fn, AQ, {params[0]: "rl_blox.blox.checkpointing.CheckpointState"}) or fn
+    fn = _records_as_tuples(repo, fn) or fn
     cfg = nf.cfg_of(fn)
     S, SPE, RET, EPOCH, RW, MEWC, SBC = params[:7]     # roles by position (public signature)
     cls = repo.cls("rl_blox.blox.checkpointing.CheckpointState")
@@ -263,7 +414,9 @@ def _assess_table(ck, repo, nf):
     def formula(e, sc, names):
         return _refine_formula(repo, nf, mi, order_formula(nf, e, sc, names), lambda p_: bool(p_.atoms()) and p_.atoms() <= ordered_atoms)
 
-    paths = enumerate_paths(cfg, cfg.entry, {cfg.exit})
+    # every acyclic path: the syntactic pruning of the enumerator equates textually equal tests, which is wrong here when the state object is
+    # updated in place between them (`min < best` before and after `best *= reset_weight`); an infeasible path is simply enabled in no world
+    paths = enumerate_paths(cfg, cfg.entry, {cfg.exit}, feasible=False)
     ck.floor("acyclic-paths", len(paths), 5)
     summaries = []
     for p in paths:
@@ -301,7 +454,7 @@ def _assess_table(ck, repo, nf):
                         names[k_] = f_
             if n.kind == "stmt" and isinstance(n.ast, ast.Return):
                 ck.need(n.ast.value is not None, f"{AQ}: bare return")
-                rv = n.ast.value
+                rv = _record_as_tuple(repo, mi, n.ast.value)
                 if isinstance(rv, ast.Tuple) and len(rv.elts) == 2:
                     flag_f = formula(strip_wrappers(rv.elts[0]), pe.scope(), names)      # `bool(flag)` is the flag
                     ret = (flag_f, pe.ev(rv.elts[1]))
@@ -389,17 +542,30 @@ def _assess_table(ck, repo, nf):
                 viol.setdefault("R3-checkpoint-guard:flag", (f"update_checkpoint = {flag} in the world [{model.describe(w)}] ({label})",
                                                                "the checkpoint may be replaced exactly when a complete window finished with every return at least the best minimum so far"))
 
-    for _attempt in range(4):
-        try:
-            sweep()
-            break
-        except Unknown as u:
-            # a comparison outside the documented table: if it relates entry-state quantities through a free atom it becomes an
-            # independent relation of the model (the code's dependence on it is then compared with the table, which ignores it)
-            if not model.extend_free(u.poly, base_atoms):
-                raise AnalysisError(f"{AQ}: a branch compares `{str(u)[:100]}`, which is outside the order model of the documented table (unrecognised form)")
-    else:
+    def decide():
+        for _attempt in range(4):
+            try:
+                sweep()
+                return
+            except Unknown as u:
+                # a comparison outside the documented table: if it relates entry-state quantities through a free atom it becomes an
+                # independent relation of the model (the code's dependence on it is then compared with the table, which ignores it)
+                if not model.extend_free(u.poly, base_atoms):
+                    raise AnalysisError(f"{AQ}: a branch compares `{str(u)[:100]}`, which is outside the order model of the documented table (unrecognised form)")
         raise AnalysisError(f"{AQ}: too many comparisons outside the documented table")
+
+    try:
+        decide()
+    except AnalysisError:
+        # the order worlds do not decide this form.  A concrete entry state in which the code's outcome differs from the documented table is
+        # still a witness (numbers for every quantity, the one enabled path evaluated exactly); finding none decides nothing
+        cex = _concrete_counterexample(summaries, m1, old, env0, (E, T, M, MIN, BEST), (SPE, RET, EPOCH, RW, MEWC, SBC))
+        if cex is None:
+            raise
+        for key, (detail, why) in sorted(cex.items()):
+            rule, k = key.split(":")
+            ck.ob(rule, AQ, f"state:{k}", False, detail, why, where)
+        return fn
     for key in sorted(checked):
         rule, k = key.split(":")
         v = viol.get(key)
@@ -723,8 +889,205 @@ def _assessment_application(repo, cfg, mi, n, c):
     return merged, early
 
 
+def _mentions(node, name: str) -> bool:
+    return any(isinstance(x, ast.Name) and x.id == name for x in ast.walk(node))
+
+
+def _blocks(fn):
+    """Every statement list of the routine (not those of nested function / class definitions)."""
+    out = []
+
+    def visit(stmts):
+        out.append(stmts)
+        for s in stmts:
+            if isinstance(s, (ast.FunctionDef, ast.AsyncFunctionDef, ast.ClassDef)):
+                continue
+            for f_ in ("body", "orelse", "finalbody"):
+                v = getattr(s, f_, None)
+                if isinstance(v, list) and v and isinstance(v[0], ast.stmt):
+                    visit(v)
+            for h in getattr(s, "handlers", []) or []:
+                visit(h.body)
+            for cs in getattr(s, "cases", []) or []:
+                visit(cs.body)
+    visit(fn.body)
+    return out
+
+
+def _leaves_early(stmts, in_loop: bool = False) -> bool:
+    """The statements can be left other than by falling off their end: return / try (handlers) / yield, or break / continue of a loop around them."""
+    for s in stmts:
+        if isinstance(s, (ast.Return, ast.Try, ast.Raise)) or any(isinstance(x, (ast.Yield, ast.YieldFrom, ast.Await)) for x in ast.walk(s)):
+            return True
+        if isinstance(s, (ast.Break, ast.Continue)) and not in_loop:
+            return True
+        if isinstance(s, (ast.For, ast.While, ast.AsyncFor)):
+            if _leaves_early(s.body, True) or _leaves_early(s.orelse, in_loop):
+                return True
+        elif isinstance(s, (ast.FunctionDef, ast.AsyncFunctionDef, ast.ClassDef)):
+            continue
+        else:
+            for f_ in ("body", "orelse", "finalbody"):
+                v = getattr(s, f_, None)
+                if isinstance(v, list) and v and isinstance(v[0], ast.stmt) and _leaves_early(v, in_loop):
+                    return True
+            for cs in getattr(s, "cases", []) or []:
+                if _leaves_early(cs.body, in_loop):
+                    return True
+    return False
+
+
+def _coalesce_carried(fn) -> bool:
+    """`t = v` ... `v = t` in one statement list (the value a helper received and handed back, as the helper expansion writes it): when `v` is not
+    mentioned between the two copies (nor elsewhere in the copy-out statement) and `t` is not mentioned outside them, `t` is `v` under another
+    name: the statements in between are read with `v` for `t`, both copies disappear.  Exactly equivalent; one pair per call."""
+    n_mentions = {}
+    for x in ast.walk(fn):
+        if isinstance(x, ast.Name):
+            n_mentions[x.id] = n_mentions.get(x.id, 0) + 1
+    for stmts in _blocks(fn):
+        for i, s in enumerate(stmts):
+            if not (isinstance(s, ast.Assign) and len(s.targets) == 1 and isinstance(s.targets[0], ast.Name) and isinstance(s.value, ast.Name) and s.targets[0].id != s.value.id):
+                continue
+            t, v = s.targets[0].id, s.value.id
+            for j in range(i + 1, len(stmts)):
+                o = stmts[j]
+                pair = None
+                if isinstance(o, ast.Assign) and len(o.targets) == 1:
+                    tg, val = o.targets[0], o.value
+                    if isinstance(tg, ast.Name) and isinstance(val, ast.Name) and (tg.id, val.id) == (v, t):
+                        pair = -1
+                    elif isinstance(tg, (ast.Tuple, ast.List)) and isinstance(val, (ast.Tuple, ast.List)) and len(tg.elts) == len(val.elts) \
+                            and all(isinstance(e, ast.Name) for e in list(tg.elts) + list(val.elts)):
+                        ks = [k for k, (a_, b_) in enumerate(zip(tg.elts, val.elts)) if (a_.id, b_.id) == (v, t)]
+                        if len(ks) == 1 and len(tg.elts) >= 2:
+                            pair = ks[0]
+                if pair is None:
+                    if _mentions(o, v):
+                        break
+                    continue
+                between = stmts[i + 1:j]
+                inside = sum(1 for b_ in between for x in ast.walk(b_) if isinstance(x, ast.Name) and x.id == t)
+                in_out = sum(1 for x in ast.walk(o) if isinstance(x, ast.Name) and x.id == t)
+                v_out = sum(1 for x in ast.walk(o) if isinstance(x, ast.Name) and x.id == v)
+                if any(_mentions(b_, v) for b_ in between) or in_out != 1 or v_out != 1 or n_mentions.get(t, 0) != 1 + inside + in_out:
+                    break
+                if any(isinstance(x, (ast.FunctionDef, ast.AsyncFunctionDef, ast.Lambda, ast.ClassDef, ast.Global, ast.Nonlocal)) for b_ in between for x in ast.walk(b_)):
+                    break
+                if _leaves_early(between):
+                    break     # a way out that skips the copy back: `v` would keep its old value there
+                for b_ in between:
+                    for x in ast.walk(b_):
+                        if isinstance(x, ast.Name) and x.id == t:
+                            x.id = v
+                if pair == -1:
+                    del stmts[j]
+                else:
+                    del o.targets[0].elts[pair]
+                    del o.value.elts[pair]
+                    if len(o.targets[0].elts) == 1:
+                        o.targets[0], o.value = o.targets[0].elts[0], o.value.elts[0]
+                del stmts[i]
+                return True
+    return False
+
+
+def _counting_target_as_increment(fn, nf, mi) -> bool:
+    """`for v in range(v + 1, b): body` (stride 1, `v` not assigned in the body): in iteration k the loop variable is old v + k, after the loop it is
+    the last of these (old v when nothing ran) - what `v += 1` at the head of every iteration gives.  The range is evaluated once, before the first
+    iteration, so it may keep reading the old `v`.  Read as: `for <fresh> in range(v + 1, b): v += 1; body`."""
+    sc = Scope(None, mi, {}, TQ)
+    for x in ast.walk(fn):
+        if not (isinstance(x, ast.For) and isinstance(x.target, ast.Name) and not x.orelse):
+            continue
+        it, v = x.iter, x.target.id
+        if not (isinstance(it, ast.Call) and dotted(it.func) == "range" and not it.keywords and len(it.args) in (2, 3) and not any(isinstance(a_, ast.Starred) for a_ in it.args)):
+            continue
+        try:
+            if not (nf.poly(it.args[0], sc, None) - Poly.atom(v) == Poly.const(1)):
+                continue
+            if len(it.args) == 3 and not nf.poly(it.args[2], sc, None) == Poly.const(1):
+                continue
+        except AnalysisError:
+            continue
+        if any(isinstance(y, ast.Name) and y.id == v and isinstance(y.ctx, (ast.Store, ast.Del)) for b_ in x.body for y in ast.walk(b_)) \
+                or any(isinstance(y, (ast.FunctionDef, ast.AsyncFunctionDef, ast.Lambda, ast.ClassDef)) for b_ in x.body for y in ast.walk(b_)):
+            continue
+        names = {y.id for y in ast.walk(fn) if isinstance(y, ast.Name)}
+        k = 0
+        while f"{v}__it{k}" in names:
+            k += 1
+        x.target = ast.copy_location(ast.Name(id=f"{v}__it{k}", ctx=ast.Store()), x.target)
+        inc = ast.AugAssign(target=ast.Name(id=v, ctx=ast.Store()), op=ast.Add(), value=ast.Constant(value=1))
+        ast.copy_location(inc, x.body[0] if x.body else x)
+        ast.fix_missing_locations(inc)
+        x.body.insert(0, inc)
+        return True
+    return False
+
+
+def _truth_locals_unwrapped(fn) -> bool:
+    """`done = bool(E)` where every read of `done` is a truth test (condition of if / while / conditional expression, operand of not / and / or
+    inside one): the truth value of `bool(E)` is that of `E`; read as `done = E`."""
+    truthy = set()
+
+    def mark(e):
+        truthy.add(id(e))
+        if isinstance(e, ast.BoolOp):
+            for v_ in e.values:
+                mark(v_)
+        elif isinstance(e, ast.UnaryOp) and isinstance(e.op, ast.Not):
+            mark(e.operand)
+    for x in ast.walk(fn):
+        if isinstance(x, (ast.If, ast.While, ast.IfExp, ast.Assert)):
+            mark(x.test)
+    changed = False
+    for x in ast.walk(fn):
+        if isinstance(x, ast.Assign) and len(x.targets) == 1 and isinstance(x.targets[0], ast.Name) and isinstance(x.value, ast.Call) and dotted(x.value.func) == "bool" \
+                and len(x.value.args) == 1 and not x.value.keywords and isinstance(x.value.args[0], (ast.BoolOp, ast.Compare, ast.UnaryOp, ast.Name)):
+            nm = x.targets[0].id
+            loads_ = [y for y in ast.walk(fn) if isinstance(y, ast.Name) and y.id == nm and isinstance(y.ctx, ast.Load)]
+            stores_ = [y for y in ast.walk(fn) if isinstance(y, ast.Name) and y.id == nm and not isinstance(y.ctx, ast.Load)]
+            if loads_ and len(stores_) == 1 and all(id(y) in truthy for y in loads_):
+                x.value = x.value.args[0]
+                changed = True
+    return changed
+
+
+def _loop_routine_as_read(repo, nf):
+    """Copy of train_td7 in which three spellings are written as the plain forms the rules below read (each exactly equivalent, see the helpers):
+    a value carried through an expanded helper (`t = v` ... `v = t`), a counting loop whose target is the counter it advances, and truth locals
+    wrapped in bool().  None when the routine uses none of them (then it is read as it stands)."""
+    from ..expand import clone
+    fn = repo.func(TQ)
+    mi = fn._module
+    new = clone(fn)
+    changed = False
+    for _ in range(12):
+        if not _coalesce_carried(new):
+            break
+        changed = True
+    for _ in range(4):
+        if not _counting_target_as_increment(new, nf, mi):
+            break
+        changed = True
+    changed = _truth_locals_unwrapped(new) or changed
+    if not changed:
+        return None
+    new._module = mi
+    new._parent = getattr(fn, "_parent", None)
+    for parent in ast.walk(new):
+        for child in ast.iter_child_nodes(parent):
+            child._parent = parent
+    return new
+
+
 def _td7_loop(ck, repo, nf, afn):
-    L = find_env_loop(repo, TQ)
+    from ..cfg import CFG
+    fn_read = _loop_routine_as_read(repo, nf)
+    L = find_env_loop(repo, TQ, {TQ: CFG(fn_read)} if fn_read is not None else None)
+    if fn_read is not None:
+        L.fn = fn_read
     cfg, mi, fn = L.cfg, L.mi, L.fn
     aparams = param_names(afn)
     S, SPE, RET, EPOCH, RW, MEWC, SBC = aparams[:7]
@@ -1051,6 +1414,16 @@ _STATE_METHODS = (
      "        checkpoint_state.rearm()\n"),
     ("    if checkpoint_state.min_return < checkpoint_state.best_min_return:", "    if checkpoint_state.below_best:"),
 )
+# a record type for the assessment's result, a helper of train_td7 that carries the epoch counter, a counting loop over the epoch counter itself (used by the overlays below)
+_RECORD = ("import dataclasses\n", "import dataclasses\nimport typing\n\n\nclass Verdict(typing.NamedTuple):\n    replace_checkpoint: bool = False\n    n_release: int = 0\n")
+_TICK_DEF = ("    checkpoint_state = CheckpointState()\n", "    checkpoint_state = CheckpointState()\n\n    def _tick(count, rng_key):\n        count += 1\n        rng_key, sub_key = jax.random.split(rng_key, 2)\n        return count, rng_key, sub_key\n")
+_TICK_OLD = "                epoch += 1\n                key, sampling_key = jax.random.split(key, 2)\n"
+_FOR_OLD = "            for delayed_train_step_idx in range(1, training_steps + 1):\n                epoch += 1\n"
+_LOGSTEP_OLD = "                        step + 1 - training_steps + delayed_train_step_idx\n"
+_EP_END_OLD = "            if (termination or truncated) and use_checkpoints:"
+_GUARD_CLAUSE = ("    update_checkpoint = False\n    training_steps = 0\n\n    if checkpoint_state.min_return < checkpoint_state.best_min_return:",
+                 "    update_checkpoint = False\n    training_steps = 0\n\n    if (checkpoint_state.min_return >= checkpoint_state.best_min_return\n            and checkpoint_state.episodes_since_udpate < checkpoint_state.max_episodes_before_update):\n        return False, 0\n"
+                 "    if checkpoint_state.min_return < checkpoint_state.best_min_return:")
 MUTANTS = [
     {"id": "c15-td7-release-overwritten-after-assessment", "file": "rl_blox/algorithm/td7.py", "rule": "R5", "find": '            if logger is not None and training_steps > 0:\n', "replace": '            if epoch < 0:\n                training_steps = 0\n            if logger is not None and training_steps > 0:\n'},
     {"id": "c15-branchy-max", "file": _C, "rule": "R", "find": "    checkpoint_state.min_return = min(\n        checkpoint_state.min_return, episode_return\n    )", "replace": "    if episode_return > checkpoint_state.min_return:\n        checkpoint_state.min_return = episode_return"},
@@ -1110,6 +1483,17 @@ MUTANTS = [
         "max_episodes_when_checkpointing=max_episodes_when_checkpointing, reset_weight=reset_weight)\n"), (_ASSESS_CALL, "                update_checkpoint, training_steps = assess_window(steps_per_episode, accumulated_reward, epoch)\n")]},
     {"id": "c15-td7-partial-state-per-episode", "file": _T, "rule": "R5", "edits": [(_ASSESS_CALL, "                checkpoint_state = CheckpointState()\n                assess_window = partial(assess_performance_and_checkpoint, checkpoint_state)\n"
         "                update_checkpoint, training_steps = assess_window(steps_per_episode, accumulated_reward, epoch, reset_weight, max_episodes_when_checkpointing, steps_before_checkpointing)\n")]},
+    # --- result returned as a NamedTuple record, epoch counter carried through a local helper, counting loop over the epoch counter, bool() truth locals ---
+    {"id": "c15-record-steps-left-at-default", "file": _C, "rule": "R1", "edits": [_RECORD, ("    return update_checkpoint, training_steps\n", "    return Verdict(replace_checkpoint=update_checkpoint)\n")]},
+    {"id": "c15-record-flag-from-steps", "file": _C, "rule": "R3", "edits": [_RECORD, ("    return update_checkpoint, training_steps\n", "    return Verdict(training_steps > 0, n_release=training_steps)\n")]},
+    {"id": "c15-td7-helper-epoch-dropped", "file": _T, "rule": "R5", "edits": [_TICK_DEF, (_TICK_OLD, "                _unused, key, sampling_key = _tick(epoch, key)\n")]},
+    {"id": "c15-td7-helper-epoch-by-two", "file": _T, "rule": "R5", "edits": [(_TICK_DEF[0], _TICK_DEF[1].replace("count += 1", "count += 2")), (_TICK_OLD, "                epoch, key, sampling_key = _tick(epoch, key)\n")]},
+    {"id": "c15-td7-for-epoch-one-short", "file": _T, "rule": "R5", "edits": [(_FOR_OLD, "            epoch_before = epoch\n            for epoch in range(epoch + 1, epoch + training_steps):\n"), (_LOGSTEP_OLD, "                        step + 1 - training_steps + epoch - epoch_before\n")]},
+    {"id": "c15-td7-bool-local-both-flags", "file": _T, "rule": "R5", "edits": [("        steps_per_episode += 1\n", "        steps_per_episode += 1\n        episode_closed = bool(termination and truncated)\n"), (_EP_END_OLD, "            if episode_closed and use_checkpoints:")]},
+    # --- a decision taken after the window switch compares with the reset-weighted value (outside the order model): decided by a concrete entry state ---
+    {"id": "c15-flag-revoked-after-switch", "file": _C, "rule": "R3", "edits": [_GUARD_CLAUSE, ("        # Reset checkpoint monitoring.\n", "        if checkpoint_state.min_return < checkpoint_state.best_min_return:\n            update_checkpoint = False\n        # Reset checkpoint monitoring.\n")]},
+    {"id": "c15-best-recorded-after-switch", "file": _C, "rule": "R3", "edits": [("        checkpoint_state.best_min_return = checkpoint_state.min_return\n        update_checkpoint = True\n", "        update_checkpoint = True\n"),
+        ("        # Reset checkpoint monitoring.\n", "        if update_checkpoint and checkpoint_state.min_return > checkpoint_state.best_min_return:\n            checkpoint_state.best_min_return = checkpoint_state.min_return\n        # Reset checkpoint monitoring.\n")]},
 ]
 BENIGN = [
     {"id": "c15-b-branchy-min", "file": _C, "find": "    checkpoint_state.min_return = min(\n        checkpoint_state.min_return, episode_return\n    )", "replace": "    if episode_return < checkpoint_state.min_return:\n        checkpoint_state.min_return = episode_return"},
@@ -1162,4 +1546,14 @@ BENIGN = [
     {"id": "c15-b-td7-partial-state-only", "file": _T, "edits": [("    checkpoint_state = CheckpointState()\n", "    checkpoint_state = CheckpointState()\n    assess_window = partial(assess_performance_and_checkpoint, checkpoint_state)\n"),
         (_ASSESS_CALL, "                outcome = assess_window(steps_per_episode, accumulated_reward, epoch, steps_before_checkpointing=steps_before_checkpointing, reset_weight=reset_weight, max_episodes_when_checkpointing=max_episodes_when_checkpointing)\n"
                        "                update_checkpoint, training_steps = outcome\n")]},
+    # --- result returned as a NamedTuple record, epoch counter carried through a local helper, counting loop over the epoch counter, bool() truth locals ---
+    {"id": "c15-b-record-keywords", "file": _C, "edits": [_RECORD, ("    return update_checkpoint, training_steps\n", "    return Verdict(n_release=training_steps, replace_checkpoint=update_checkpoint)\n")]},
+    {"id": "c15-b-record-positional", "file": _C, "edits": [_RECORD, ("    return update_checkpoint, training_steps\n", "    verdict = Verdict(update_checkpoint, training_steps)\n    return verdict\n")]},
+    {"id": "c15-b-td7-helper-carries-epoch", "file": _T, "edits": [_TICK_DEF, (_TICK_OLD, "                epoch, key, sampling_key = _tick(epoch, key)\n")]},
+    {"id": "c15-b-td7-helper-carries-epoch-keywords", "file": _T, "edits": [_TICK_DEF, (_TICK_OLD, "                epoch, key, sampling_key = _tick(rng_key=key, count=epoch)\n")]},
+    {"id": "c15-b-td7-for-epoch", "file": _T, "edits": [(_FOR_OLD, "            epoch_before = epoch\n            for epoch in range(epoch + 1, epoch + training_steps + 1):\n"), (_LOGSTEP_OLD, "                        step + 1 - training_steps + epoch - epoch_before\n")]},
+    {"id": "c15-b-td7-for-epoch-stride", "file": _T, "edits": [(_FOR_OLD, "            epoch_before = epoch\n            for epoch in range(1 + epoch, training_steps + epoch + 1, 1):\n"), (_LOGSTEP_OLD, "                        step + 1 - training_steps + epoch - epoch_before\n")]},
+    {"id": "c15-b-td7-bool-local", "file": _T, "edits": [("        steps_per_episode += 1\n", "        steps_per_episode += 1\n        episode_closed = bool(truncated or termination)\n"), (_EP_END_OLD, "            if use_checkpoints and episode_closed:"),
+        ("        if termination or truncated:\n            if logger is not None:\n                logger.record_stat(\"return\"", "        if episode_closed:\n            if logger is not None:\n                logger.record_stat(\"return\"")]},
+    {"id": "c15-b-continue-guard-clause", "file": _C, "edits": [_GUARD_CLAUSE]},
 ]
